@@ -8,7 +8,7 @@ submission has not executed: the tables only ever record results of THIS submiss
 the readonly caches held before.  Consequences (`Props/C15.lean`): precedence in the form "a body starts only after
 the bodies of all jobs of all predecessor nodes have ended in this submission", every job is re-executed, and the
 outputs are the values of this submission.  (With a finite limit, or with an asynchronous worker, this fails:
-finding D71.)
+finding D73.)
 -/
 namespace PydraModel.Sched
 open PydraModel.Graph
